@@ -402,8 +402,8 @@ def checkC10 (ct : ClassTable) (s : Spec) (t : V) (obs : Obs) : Bool :=
 
 def expectedBoolOps : OpTable :=
   [("_Bool", "__and__", "And(self,other)"), ("_Bool", "__invert__", "Not(self)"),
-   ("_Bool", "__or__", "Or(self,other)"), ("And", "__and__", "And(*children,other)"),
-   ("Or", "__or__", "Or(*children,other)"), ("_MExpr", "__and__", "And(self,other)"),
+   ("_Bool", "__or__", "Or(self,other)"), ("And", "__and__", "default?And(self,other):And(*children,other)"),
+   ("Or", "__or__", "default?Or(self,other):Or(*children,other)"), ("_MExpr", "__and__", "And(self,other)"),
    ("_MExpr", "__invert__", "Not(self)"), ("_MExpr", "__or__", "Or(self,other)"),
    ("_MExpr", "__rand__", "And(self,other)"), ("_MType", "__and__", "And(self,other)"),
    ("_MType", "__invert__", "Not(self)"), ("_MType", "__or__", "Or(self,other)"),
